@@ -107,22 +107,7 @@ where
     where
         T: Ord,
     {
-        // plain numbers first (they may be negative or fractional), then sizes with a unit (`1.5KiB`)
-        fn number(s: &str) -> f64 {
-            match s.parse::<f64>() {
-                Ok(number) if !number.is_nan() => number,
-                _ => parse_filesize(s).unwrap_or(0) as f64,
-            }
-        }
-
-        let a = self.values[i].to_string();
-        let b = other.values[i].to_string();
-
-        // integers beyond 2^53 that collapse to one floating-point value are told apart exactly
-        number(&a).total_cmp(&number(&b)).then_with(|| match (a.parse::<i64>(), b.parse::<i64>()) {
-            (Ok(a), Ok(b)) => a.cmp(&b),
-            _ => Ordering::Equal,
-        })
+        cmp_numeric_texts(&self.values[i].to_string(), &other.values[i].to_string())
     }
 
     #[inline]
@@ -143,6 +128,23 @@ where
 
         a.cmp(&b)
     }
+}
+
+/// The order of two numeric cells of a sorted column, for rows with and without GROUP BY alike
+pub fn cmp_numeric_texts(a: &str, b: &str) -> Ordering {
+    // plain numbers first (they may be negative or fractional), then sizes with a unit (`1.5KiB`)
+    fn number(s: &str) -> f64 {
+        match s.parse::<f64>() {
+            Ok(number) if !number.is_nan() => number,
+            _ => parse_filesize(s).unwrap_or(0) as f64,
+        }
+    }
+
+    // integers beyond 2^53 that collapse to one floating-point value are told apart exactly
+    number(a).total_cmp(&number(b)).then_with(|| match (a.parse::<i64>(), b.parse::<i64>()) {
+        (Ok(a), Ok(b)) => a.cmp(&b),
+        _ => Ordering::Equal,
+    })
 }
 
 impl<T: Display + Ord> Ord for Criteria<T> {
